@@ -38,7 +38,11 @@ CFG = dict(
          "returns; the other call is then completed. Judged: client half against Model/Client.v (all orders), status codes of RecvMsg/SendMsg "
          "(Canceled vs DeadlineExceeded exactly), pending operations, reset envelopes on the tap (count, id, owner), handler context at every "
          "quiescent point after the reset reached the server, orphans at the end; the same traces x prefixes with exactly the RST_STREAM Write "
-         "refused (quick: every other prefix): the caller's side is judged (pending operations return, status codes), the handler is not; plus 40 repetitions of the FORCED cancel-then-send schedule "
+         "refused (quick: every other prefix): the caller's side is judged (pending operations return, status codes), the handler is not; the KIND of "
+         "caller context is varied over all scenarios, built with the real constructors (WithCancel, WithTimeout, WithDeadline, WithCancelCause, "
+         "WithDeadlineCause, WithTimeoutCause, errgroup.WithContext, child and grandchild of the cancelled context); the cancellation landing INSIDE "
+         "NewStream's transport Write (right after the transport accepted the opener: cancel / deadline; the Write held up, cancel, released) x 3 kinds "
+         "x other calls x context kinds (not a state of the model: predicates only - the reset reaches the server or the opener never does); plus 40 repetitions of the FORCED cancel-then-send schedule "
          "(stream loop held at the yield point cs.loop.read while a SendMsg tears the registration down: regression of D-07s)",
     assumptions=["payloads, metadata, methods and names are opaque tokens for client and server",
                  "the transport checks the context of a Write (Endpoint.CheckCtx); wires are FIFO and lossless (C19 for the shipped transports)",
